@@ -75,3 +75,49 @@ PROPS = {
     },
 }
 NOT_APPLICABLE = {}
+
+PROPS["C03"] = {
+    "level": "exploration",
+    "technique": "property-based testing (rapid) over lifecycle histories under arbitrary policy sets + full 64x64 policy-product enumeration; oracle: wire scanner (verbatim, base64, reassembled fragments, de-armoured) for unique text tokens due protection, with a positive control, plus decipherability by the omniscient observer",
+    "level_text": "every ValidMessage returned by any API call in generated lifecycle histories is scanned for every text that was due protection when Send was called; finished/required-encryption sends must emit no form of the text",
+    "level_note": "readability is decided for the encodings the library can produce (raw, base64 armour, fragments); secrecy of AES itself is assumed",
+    "rule": ("lifecycle scripts (send, deliver, drop, query, End, peer End, error message, SMP, extra key, fragment-size changes, whitespace-tagged input, session establishment) under any of the 64 policy sets per side; "
+             "texts = unique token + filler. A token is due protection if at Send time the sender was encrypted, finished (peer disconnected, End not yet called) or had require-encryption. Oracle: token never appears verbatim, inside base64 armour, "
+             "in fragment payloads or across reassembled fragments of any output of any call; finished: Send fails with no output; required: only a query; encrypted: the text is the plaintext of a data message under keys derived from the DH secrets; "
+             "positive control: every text sent in plaintext state is found by the scanner. Non-trivial: texts sent in >=2 protection situations in one script, one of them finished or require-encryption."),
+    "assumptions": COMMON_ASSUME,
+    "exhaustive_checks": ["C03policies"],
+    "tests": [
+        {"name": "TestProp_C03_Leak", "quick": {"shards": 8, "checks": 120, "timeout": 400}, "thorough": {"shards": 16, "checks": 2500, "timeout": 3000}},
+        {"name": "TestProp_C03_Policies", "kind": "plain", "quick": {"shards": 8, "timeout": 400}, "thorough": {"shards": 16, "timeout": 3000}},
+    ],
+}
+
+PROPS["C09"] = {
+    "level": "exploration",
+    "technique": "property-based testing (rapid): generated histories judged by an omniscient observer that recomputes the MAC keys of every key pair; invariant at every emitted message (soundness), end-of-history completeness, and a forgery experiment under each disclosed key",
+    "level_text": "for every data message emitted in generated histories each disclosed key must belong to a pair outside the discloser's acceptance window at that moment; every receiving key that verified a message and was retired must be disclosed later",
+    "level_note": "retirement by a completely new key exchange is counted but not judged for completeness (keys of the old session are wiped)",
+    "rule": ("histories of ping-pong rounds, one-directional bursts, out-of-order deliveries, refresh while encrypted, SMP, extra key, heartbeats. Oracle: each disclosed 20-byte key equals a sending/receiving MAC key of some (own id, their id) pair "
+             "of the discloser (else violation) and that pair is not in the window {s,s+1}x{r-1,r} read off the disclosing message; each pair under which the party accepted a message with an observable effect and which a later message of the party shows retired "
+             "has its receiving key disclosed at or after retirement; messages forged under disclosed keys are rejected by the discloser. Non-trivial: >=1 disclosure and a rotation on each axis."),
+    "assumptions": COMMON_ASSUME,
+    "tests": [
+        {"name": "TestProp_C09_Disclosure", "quick": {"shards": 8, "checks": 30, "timeout": 400}, "thorough": {"shards": 16, "checks": 500, "timeout": 3000}},
+    ],
+}
+
+PROPS["C18"] = {
+    "level": "exploration",
+    "technique": "property-based testing (rapid, stateful lifecycle scripts under arbitrary policy sets) with a lifecycle automaton + transmission-multiset model fed by the omniscient observer",
+    "level_text": "generated lifecycle histories (start/complete/abandon AKE, Send, End, peer End, error messages, refresh, peer restart, loss) judged after every API call for state/event consistency and for what is transmitted how often",
+    "level_note": "a refresh completing on the Reveal-Signature sender's side is recognised from the observer-validated Signature it receives",
+    "rule": ("ops: send, deliver, drop, query, session establishment, End, peer End, injected ?OTR Error, SMP, extra key, clock ageing, fragment size, peer restart (fresh conversation object), under any policy sets. Oracle after every call: "
+             "plaintext->encrypted only in a Receive of a final AKE message the observer validates, with exactly GoneSecure; encrypted->other only in End() or on an observer-decrypted disconnect TLV, with exactly GoneInsecure; StillSecure exactly on a refresh; "
+             "no other security events; Send refused without output while finished; clear text output in plaintext state without require-encryption. Transmissions (observer-decrypted): each text verbatim at most once and in Send order; "
+             "'[resent] ' only for the most recent text, at most once, only after an ?OTR Error received while encrypted, never for non-text messages. Non-trivial: >=2 sessions for one party or a resend occurred."),
+    "assumptions": COMMON_ASSUME,
+    "tests": [
+        {"name": "TestProp_C18_Lifecycle", "quick": {"shards": 8, "checks": 150, "timeout": 400}, "thorough": {"shards": 16, "checks": 3000, "timeout": 3000}},
+    ],
+}
